@@ -72,10 +72,16 @@ def generate(rng, tier):
             rv = [None if v is None else float(v) for v in rv]
         if rkind == "datetime" and kind == "date":
             import datetime as _dt
-            rv = [None if v is None else _dt.datetime(v.year, v.month, v.day) for v in rv]
+            # midnight of the same day is the same instant; a time of day on the finer side is another key, which matches nothing
+            tod = rng.random() < 0.5
+            rv = [None if v is None else _dt.datetime(v.year, v.month, v.day, *((12, 30) if tod and rng.random() < 0.4 else ())) for v in rv]
         if rkind == "datetime_ms":
-            lv = [None if v is None else v.replace(microsecond=(v.microsecond // 1000) * 1000) for v in lv]
+            if rng.random() < 0.5:
+                lv = [None if v is None else v.replace(microsecond=(v.microsecond // 1000) * 1000) for v in lv]      # (else: microseconds the coarser side cannot hold)
             rv = [None if v is None else v.replace(microsecond=(v.microsecond // 1000) * 1000) for v in rv]
+        if kind == "timedelta_ms" and rkind == "timedelta" and rng.random() < 0.5:
+            import datetime as _dt
+            rv = [v if v is None or rng.random() < 0.6 else v + _dt.timedelta(microseconds=1) for v in rv]        # durations the coarser side cannot hold
         lname = f"k{j}"
         rname = lname if rng.random() < 0.6 else f"r{j}"
         if j == 0 and rng.random() < 0.04:
